@@ -15,6 +15,7 @@ import AdaptixProofs.Lemmas.NormIdem
 import AdaptixProofs.Lemmas.NormKeys
 import AdaptixProofs.Lemmas.NormLitKey
 import AdaptixProofs.Lemmas.NormEquivDen
+import AdaptixProofs.Lemmas.HintVars
 
 namespace Adaptix.Types.C15
 
@@ -301,6 +302,199 @@ example : normalize W₀ (.union false [.cls 0, .cls 1]) = normalize W₀ (.unio
 example :
     normalize W₀ (.app false 5 [.union false [.cls 0, .cls 1]])
       ≠ normalize W₀ (.union false [.app false 5 [.cls 0], .app false 5 [.cls 1]]) := by decide
+
+/-! ### the helpers behind generic resolution treat every spelling alike
+
+`get_type_vars` / `get_type_vars_of_parametrized` / `is_generic` read attributes of the Python object that
+represents a hint (model: `AdaptixModel/Types/HintVars.lean`, `objFacts`); the objects of different spellings of
+one type belong to different classes.  The theorems say that the answers nevertheless depend only on which type
+variables the hint mentions (`Occurs`, a relation that cannot see a spelling flag), hence not on the spelling. -/
+
+section GenericHelpers
+variable (E : GenEnv α)
+
+/-- **`get_type_vars_of_parametrized` is the set of mentioned type variables**, whatever object represents the hint
+    (`typing._UnionGenericAlias`, `types.UnionType`, `typing._GenericAlias`, `types.GenericAlias`); a hint that is
+    itself a variable is the one exception (the resolver looks it up directly). -/
+theorem type_vars_of_parametrized_spec (h : Hint α) (v : α) :
+    v ∈ typeVarsOfParametrized E h ↔ (Occurs E v h ∧ h.isTypeVar = false) := by
+  cases h with
+  | typeVar a c lim => simp [typeVarsOfParametrized, typeVarsOfParametrizedOf, objFacts, getTypeVarsOf, Hint.isTypeVar]
+  | bare al a ps =>
+    have : ¬ Occurs E v (.bare al a ps) := fun h => by cases h
+    by_cases hb : E.builtin a <;> cases al <;>
+      simp [typeVarsOfParametrized, typeVarsOfParametrizedOf, objFacts, getTypeVarsOf, hb, this]
+  | app al a args =>
+    rw [← mem_vars E v]
+    by_cases ho : E.noParams a
+    · simp [typeVarsOfParametrized, typeVarsOfParametrizedOf, objFacts, getTypeVarsOf, ho, Hint.vars, Hint.isTypeVar]
+    · simp [typeVarsOfParametrized, typeVarsOfParametrizedOf, objFacts, getTypeVarsOf, ho, Hint.isTypeVar]
+      exact fun hm => List.ne_nil_of_mem hm
+  | tupleVar al h =>
+    rw [← mem_vars E v]
+    simp [typeVarsOfParametrized, typeVarsOfParametrizedOf, objFacts, getTypeVarsOf, Hint.vars, Hint.isTypeVar] <;>
+      try (exact fun hm => List.ne_nil_of_mem hm)
+  | tupleFix al hs =>
+    rw [← mem_vars E v]
+    cases hs <;>
+      simp [typeVarsOfParametrized, typeVarsOfParametrizedOf, objFacts, getTypeVarsOf, Hint.vars, Hint.varsList,
+        Hint.isTypeVar] <;>
+      try (exact fun hm => List.ne_nil_of_mem hm)
+  | typeOf al h =>
+    rw [← mem_vars E v]
+    simp [typeVarsOfParametrized, typeVarsOfParametrizedOf, objFacts, getTypeVarsOf, Hint.vars, Hint.isTypeVar] <;>
+      try (exact fun hm => List.ne_nil_of_mem hm)
+  | union o ms =>
+    rw [← mem_vars E v]
+    cases ms <;>
+      simp [typeVarsOfParametrized, typeVarsOfParametrizedOf, objFacts, getTypeVarsOf, Hint.vars, Hint.varsList,
+        Hint.isTypeVar] <;>
+      try (exact fun hm => List.ne_nil_of_mem hm)
+  | optional h =>
+    rw [← mem_vars E v]
+    simp [typeVarsOfParametrized, typeVarsOfParametrizedOf, objFacts, getTypeVarsOf, Hint.vars, Hint.isTypeVar] <;>
+      try (exact fun hm => List.ne_nil_of_mem hm)
+  | annotated h ms =>
+    rw [← mem_vars E v]
+    simp [typeVarsOfParametrized, typeVarsOfParametrizedOf, objFacts, getTypeVarsOf, Hint.vars, Hint.isTypeVar] <;>
+      try (exact fun hm => List.ne_nil_of_mem hm)
+  | literal vs =>
+    have : ¬ Occurs E v (.literal vs) := fun h => by cases h
+    simp [typeVarsOfParametrized, typeVarsOfParametrizedOf, objFacts, getTypeVarsOf, this]
+  | none sp =>
+    have : ¬ Occurs E v (.none sp) := fun h => by cases h
+    simp [typeVarsOfParametrized, typeVarsOfParametrizedOf, objFacts, getTypeVarsOf, this]
+  | any =>
+    have : ¬ Occurs E v (.any) := fun h => by cases h
+    simp [typeVarsOfParametrized, typeVarsOfParametrizedOf, objFacts, getTypeVarsOf, this]
+  | cls a =>
+    have : ¬ Occurs E v (.cls a) := fun h => by cases h
+    simp [typeVarsOfParametrized, typeVarsOfParametrizedOf, objFacts, getTypeVarsOf, this]
+  | newType a =>
+    have : ¬ Occurs E v (.newType a) := fun h => by cases h
+    simp [typeVarsOfParametrized, typeVarsOfParametrizedOf, objFacts, getTypeVarsOf, this]
+  | tupleBare al =>
+    have : ¬ Occurs E v (.tupleBare al) := fun h => by cases h
+    simp [typeVarsOfParametrized, typeVarsOfParametrizedOf, objFacts, getTypeVarsOf, this]
+  | typeBare al =>
+    have : ¬ Occurs E v (.typeBare al) := fun h => by cases h
+    simp [typeVarsOfParametrized, typeVarsOfParametrizedOf, objFacts, getTypeVarsOf, this]
+
+/-- `Union[...]` vs `X | Y`: the same variables are substituted -/
+theorem type_vars_union_style (x y : Bool) (ms : List (Hint α)) (v : α) :
+    v ∈ typeVarsOfParametrized E (.union x ms) ↔ v ∈ typeVarsOfParametrized E (.union y ms) := by
+  simp only [type_vars_of_parametrized_spec, occurs_union, Hint.isTypeVar]
+
+/-- `Optional[X]` vs `Union[X, None]` / `X | None` -/
+theorem type_vars_optional_def (h : Hint α) (s o : Bool) (v : α) :
+    v ∈ typeVarsOfParametrized E (.optional h) ↔ v ∈ typeVarsOfParametrized E (.union o [h, .none s]) := by
+  simp only [type_vars_of_parametrized_spec, occurs_union, Hint.isTypeVar]
+  constructor
+  · rintro ⟨ho, -⟩
+    cases ho with
+    | optional _ ho => exact ⟨⟨h, by simp, ho⟩, trivial⟩
+  · rintro ⟨⟨m, hm, ho⟩, -⟩
+    simp only [List.mem_cons, List.not_mem_nil, or_false] at hm
+    rcases hm with rfl | rfl
+    · exact ⟨.optional _ ho, trivial⟩
+    · cases ho
+
+/-- typing alias vs builtin generic: `List[T]` / `list[T]` -/
+theorem type_vars_alias (x y : Bool) (a : α) (args : List (Hint α)) (v : α) :
+    v ∈ typeVarsOfParametrized E (.app x a args) ↔ v ∈ typeVarsOfParametrized E (.app y a args) := by
+  simp only [type_vars_of_parametrized_spec, Hint.isTypeVar]
+  constructor <;>
+  · rintro ⟨ho, -⟩
+    cases ho with
+    | app _ _ _ m hno hm ho => exact ⟨.app _ _ _ m hno hm ho, trivial⟩
+
+/-- union members reordered, in either union spelling -/
+theorem type_vars_union_perm (x y : Bool) {ms ms' : List (Hint α)} (hp : ms.Perm ms') (v : α) :
+    v ∈ typeVarsOfParametrized E (.union x ms) ↔ v ∈ typeVarsOfParametrized E (.union y ms') := by
+  simp only [type_vars_of_parametrized_spec, occurs_union, Hint.isTypeVar, hp.mem_iff]
+
+/-- a nested union flattened -/
+theorem type_vars_union_nest (o o' : Bool) (pre ms post : List (Hint α)) (v : α) :
+    v ∈ typeVarsOfParametrized E (.union o (pre ++ .union o' ms :: post))
+      ↔ v ∈ typeVarsOfParametrized E (.union o (pre ++ ms ++ post)) := by
+  simp only [type_vars_of_parametrized_spec, occurs_union, Hint.isTypeVar, List.mem_append, List.mem_cons]
+  constructor
+  · rintro ⟨⟨m, hm, ho⟩, -⟩
+    refine ⟨?_, trivial⟩
+    rcases hm with hm | rfl | hm
+    · exact ⟨m, Or.inl (Or.inl hm), ho⟩
+    · obtain ⟨m', hm', ho'⟩ := (occurs_union E v o' ms).1 ho
+      exact ⟨m', Or.inl (Or.inr hm'), ho'⟩
+    · exact ⟨m, Or.inr hm, ho⟩
+  · rintro ⟨⟨m, hm, ho⟩, -⟩
+    refine ⟨?_, trivial⟩
+    rcases hm with (hm | hm) | hm
+    · exact ⟨m, Or.inl hm, ho⟩
+    · exact ⟨.union o' ms, Or.inr (Or.inl rfl), (occurs_union E v o' ms).2 ⟨m, hm, ho⟩⟩
+    · exact ⟨m, Or.inr (Or.inr hm), ho⟩
+
+/-- a duplicated member -/
+theorem type_vars_union_dup (o : Bool) (x : Hint α) (ms : List (Hint α)) (v : α) :
+    v ∈ typeVarsOfParametrized E (.union o (x :: x :: ms)) ↔ v ∈ typeVarsOfParametrized E (.union o (x :: ms)) := by
+  simp only [type_vars_of_parametrized_spec, occurs_union, Hint.isTypeVar, List.mem_cons]
+  constructor
+  · rintro ⟨⟨m, hm, ho⟩, -⟩
+    exact ⟨⟨m, by rcases hm with h | h | h <;> simp [h], ho⟩, trivial⟩
+  · rintro ⟨⟨m, hm, ho⟩, -⟩
+    exact ⟨⟨m, Or.inr hm, ho⟩, trivial⟩
+
+/-- **`is_generic` of a subscribed hint says whether it mentions a type variable**, in every spelling
+    (`Annotated[...]` aside, whose `is_generic` also looks through to an unsubscribed origin). -/
+theorem is_generic_subscribed (h : Hint α) (hp : isParametrized E h = true) (ha : h.isAnnotated = false) :
+    isGeneric E h = true ↔ ∃ v, Occurs E v h := by
+  have key : ∀ l : List α, (!l.isEmpty) = true ↔ ∃ v, v ∈ l := by
+    intro l; cases l <;> simp
+  cases h with
+  | annotated h ms => simp [Hint.isAnnotated] at ha
+  | typeVar a c lim => simp [isParametrized, isParametrizedOf, objFacts] at hp
+  | bare al a ps => by_cases hb : E.builtin a <;> cases al <;> simp [isParametrized, isParametrizedOf, objFacts, hb] at hp
+  | none sp => simp [isParametrized, isParametrizedOf, objFacts] at hp
+  | any => simp [isParametrized, isParametrizedOf, objFacts] at hp
+  | cls a => simp [isParametrized, isParametrizedOf, objFacts] at hp
+  | newType a => simp [isParametrized, isParametrizedOf, objFacts] at hp
+  | tupleBare al => simp [isParametrized, isParametrizedOf, objFacts] at hp
+  | typeBare al => simp [isParametrized, isParametrizedOf, objFacts] at hp
+  | app al a args =>
+    have hno : E.noParams a = false := by
+      simpa [isParametrized, isParametrizedOf, objFacts] using hp
+    simp only [isGeneric, isParametrizedOf, objFacts, getTypeVarsOf, hno, Bool.false_eq_true, if_false, Bool.not_false,
+      Bool.not_true, Bool.and_false, Bool.or_false, key, mem_vars]
+  | tupleVar al h =>
+    simp only [isGeneric, isParametrizedOf, objFacts, getTypeVarsOf, Bool.not_true, Bool.and_false, Bool.or_false, key,
+      ← mem_vars E _ (.tupleVar al h), Hint.vars]
+  | tupleFix al hs =>
+    have hne : hs.isEmpty = false := by simpa [isParametrized, isParametrizedOf, objFacts] using hp
+    simp only [isGeneric, isParametrizedOf, objFacts, getTypeVarsOf, hne, Bool.not_false, Bool.not_true, Bool.and_false,
+      Bool.or_false, key, ← mem_vars E _ (.tupleFix al hs), Hint.vars]
+  | typeOf al h =>
+    simp only [isGeneric, isParametrizedOf, objFacts, getTypeVarsOf, Bool.not_true, Bool.and_false, Bool.or_false, key,
+      ← mem_vars E _ (.typeOf al h), Hint.vars]
+  | union o ms =>
+    simp only [isGeneric, isParametrizedOf, objFacts, getTypeVarsOf, Bool.false_and, Bool.or_false, key,
+      ← mem_vars E _ (.union o ms), Hint.vars]
+  | optional h =>
+    simp only [isGeneric, isParametrizedOf, objFacts, getTypeVarsOf, Bool.false_and, Bool.or_false, key,
+      ← mem_vars E _ (.optional h), Hint.vars]
+  | literal vs =>
+    have : ∀ v, ¬ Occurs E v (.literal vs) := fun v h => by cases h
+    simp [isGeneric, isParametrizedOf, objFacts, getTypeVarsOf, this]
+
+end GenericHelpers
+
+/-- non-vacuity: `list[T] | None` (a `types.UnionType`) and `Optional[List[T]]` both report `T`; a model of the helper
+    that returned `()` for PEP 604 unions would falsify `type_vars_union_style` here -/
+example :
+    typeVarsOfParametrized (α := Nat) ⟨fun a => a == 5, fun _ => false, false, true⟩
+        (.union true [.app false 5 [.typeVar 9 false []], .none false]) = [9]
+    ∧ typeVarsOfParametrized (α := Nat) ⟨fun a => a == 5, fun _ => false, false, true⟩
+        (.optional (.app true 5 [.typeVar 9 false []])) = [9]
+    ∧ isGeneric (α := Nat) ⟨fun a => a == 5, fun _ => false, false, true⟩
+        (.union true [.app false 5 [.typeVar 9 false []], .none false]) = true := by decide
 
 /-!
   Not modelled here: loaders, dumpers and predicates.  "Equivalent hints yield
